@@ -3,9 +3,13 @@
 package tokenV2
 
 import (
+	"errors"
 	nethttp "net/http"
+	"time"
 
+	"github.com/google/uuid"
 	"github.com/labstack/echo/v4"
+	"github.com/lestrrat-go/jwx/v2/jwt"
 )
 
 // hCtx is an echo.Context that knows its request, records Set() calls and the response written.
@@ -40,6 +44,37 @@ func hCtxWithAuthorization(values ...string) *hCtx {
 		h["Authorization"] = values
 	}
 	return &hCtx{req: &nethttp.Request{Header: h}}
+}
+
+//verif:stub strings.Fields => hFields
+
+// hFields models strings.Fields for ASCII input, written from its documentation ("splits the string s
+// around each instance of one or more consecutive white space characters, as defined by unicode.IsSpace,
+// returning a slice of substrings of s or an empty slice if s contains only white space"). The real
+// function classifies bytes through a 256-entry table, which the engine can only explore by forking per
+// table index; this model uses comparisons. unicode.IsSpace on ASCII = \t \n \v \f \r and space.
+// Bytes >= 0x80 (multi-byte runes, U+0085/U+00A0 spaces) are outside the model.
+func hFields(s string) []string {
+	out := []string{}
+	start := -1
+	for i := 0; i < len(s); i++ {
+		c := s[i]
+		if c >= 0x80 {
+			vCut("strings.Fields model is ASCII only")
+		}
+		if hIsASCIISpace(c) {
+			if start >= 0 {
+				out = append(out, s[start:i])
+				start = -1
+			}
+		} else if start < 0 {
+			start = i
+		}
+	}
+	if start >= 0 {
+		out = append(out, s[start:])
+	}
+	return out
 }
 
 func hIsASCIISpace(c byte) bool {
@@ -79,10 +114,12 @@ func hRefCredential(s string) string {
 	if len(scheme) != 6 {
 		return ""
 	}
+	isBearer := true
 	for k := 0; k < 6; k++ {
-		if hLowerASCII(scheme[k]) != "bearer"[k] {
-			return ""
-		}
+		isBearer = isBearer && hLowerASCII(scheme[k]) == "bearer"[k]
+	}
+	if !isBearer {
+		return ""
 	}
 	return s[runs[1][0]:runs[1][1]]
 }
@@ -92,17 +129,11 @@ func H04e() {
 	n := vLen(0, vParam("hdrbytes", 8))
 	vTag("authorization")
 	s := vString(n)
-	ascii := true
 	for i := 0; i < n; i++ {
-		if s[i] >= 0x80 {
-			ascii = false
-		}
+		vAssume(s[i] < 0x80)
 	}
 	got := authenticationCredential(hCtxWithAuthorization(s))
-	if ascii {
-		vCover("ascii")
-		vAssert(got == hRefCredential(s), "H04e.ascii_exact: credential differs from '<ws>* bearer <ws>+ token <ws>*' reference on an ASCII header")
-	}
+	vAssert(got == hRefCredential(s), "H04e.ascii_exact: credential differs from '<ws>* bearer <ws>+ token <ws>*' reference")
 	if got != "" {
 		vCover("credential")
 		// whatever the bytes: the credential is a whitespace-free contiguous part of what was sent,
@@ -125,7 +156,217 @@ func H04e() {
 
 func H04e_twin() {
 	s := vString(8)
+	for i := 0; i < 8; i++ {
+		vAssume(s[i] < 0x80)
+	}
 	if authenticationCredential(hCtxWithAuthorization(s)) == "x" && s[0] == 'B' {
 		vAssert(false, "H04e_twin.reach: reachable")
+	}
+}
+
+// ---------------------------------------------------------------------------------------------
+// jwt.Token value object. Contract of jwx (jwt/token_gen.go): registered claims are typed - jti, iss,
+// sub are strings, aud is []string, iat/exp/nbf are time.Time built as time.Unix(sec, 0).UTC() (default
+// parse precision: whole seconds); Get(name) reports (value, true) iff the claim is present; the typed
+// getters return the zero value when the claim is absent.
+type hToken struct {
+	jwt.Token
+	hasJti, hasIat, hasExp, hasNbf, hasAud, hasIss, hasSub bool
+	jti, iss, sub                                          string
+	aud                                                    []string
+	iat, exp, nbf                                          time.Time
+}
+
+func (t *hToken) Get(name string) (interface{}, bool) {
+	switch name {
+	case "jti":
+		if t.hasJti {
+			return t.jti, true
+		}
+	case "iat":
+		if t.hasIat {
+			return t.iat, true
+		}
+	case "exp":
+		if t.hasExp {
+			return t.exp, true
+		}
+	case "nbf":
+		if t.hasNbf {
+			return t.nbf, true
+		}
+	case "aud":
+		if t.hasAud {
+			return t.aud, true
+		}
+	case "iss":
+		if t.hasIss {
+			return t.iss, true
+		}
+	case "sub":
+		if t.hasSub {
+			return t.sub, true
+		}
+	}
+	return nil, false
+}
+func (t *hToken) JwtID() string {
+	if t.hasJti {
+		return t.jti
+	}
+	return ""
+}
+func (t *hToken) Issuer() string {
+	if t.hasIss {
+		return t.iss
+	}
+	return ""
+}
+func (t *hToken) Subject() string {
+	if t.hasSub {
+		return t.sub
+	}
+	return ""
+}
+func (t *hToken) Audience() []string {
+	if t.hasAud {
+		return t.aud
+	}
+	return nil
+}
+func (t *hToken) IssuedAt() time.Time {
+	if t.hasIat {
+		return t.iat
+	}
+	return time.Time{}
+}
+func (t *hToken) Expiration() time.Time {
+	if t.hasExp {
+		return t.exp
+	}
+	return time.Time{}
+}
+func (t *hToken) NotBefore() time.Time {
+	if t.hasNbf {
+		return t.nbf
+	}
+	return time.Time{}
+}
+
+// hSec: a NumericDate in whole seconds. |sec| < 2^61 keeps time.Unix's internal offset addition and the
+// reference arithmetic below free of int64 wrap-around (year 7e10; JSON numbers beyond are out of bounds).
+func hSec() int64 {
+	s := vI64()
+	vAssume(s > -(1<<61) && s < (1<<61))
+	return s
+}
+
+type hTokenSecs struct{ iat, exp, nbf int64 }
+
+// hSymToken draws an arbitrary token: every mandatory claim present or absent, arbitrary times,
+// sub/iss/jti strings of 0..1 / 1 / 0..2 symbolic bytes.
+func hSymToken() (*hToken, hTokenSecs) {
+	var sec hTokenSecs
+	t := &hToken{}
+	vTag("hasJti")
+	t.hasJti = vBool()
+	vTag("hasIat")
+	t.hasIat = vBool()
+	vTag("hasExp")
+	t.hasExp = vBool()
+	vTag("hasNbf")
+	t.hasNbf = vBool()
+	vTag("hasAud")
+	t.hasAud = vBool()
+	vTag("hasIss")
+	t.hasIss = vBool()
+	vTag("hasSub")
+	t.hasSub = vBool()
+	vTag("iat")
+	sec.iat = hSec()
+	vTag("exp")
+	sec.exp = hSec()
+	vTag("nbf")
+	sec.nbf = hSec()
+	t.iat = time.Unix(sec.iat, 0).UTC()
+	t.exp = time.Unix(sec.exp, 0).UTC()
+	t.nbf = time.Unix(sec.nbf, 0).UTC()
+	t.jti = vString(vLen(0, 2))
+	vTag("sub")
+	t.sub = vString(vLen(0, 1))
+	vTag("iss")
+	t.iss = vString(1)
+	t.aud = []string{"aud"}
+	return t, sec
+}
+
+//verif:stub github.com/google/uuid.Parse => hUUIDParse
+
+// uuid.Parse verdict: chosen by the harness; the argument is recorded so that the harness can check
+// that the verdict was asked about the token's jti and nothing else.
+var hUUIDOK bool
+var hUUIDArgs []string
+
+func hUUIDParse(s string) (uuid.UUID, error) {
+	hUUIDArgs = append(hUUIDArgs, s)
+	if hUUIDOK {
+		return uuid.UUID{}, nil
+	}
+	return uuid.UUID{}, errors.New("harness: not a UUID")
+}
+
+const hMaxLifetimeSec = 88200 // 24.5 h
+
+// hBestPracticeRef is the property text: all seven mandatory claims present, jti is a UUID,
+// exp - nbf <= 24.5 h, exp - iat <= 24.5 h, iat <= nbf, sub non-empty.
+func hBestPracticeRef(t *hToken, sec hTokenSecs, jtiIsUUID bool) bool {
+	return t.hasJti && t.hasIat && t.hasExp && t.hasNbf && t.hasAud && t.hasIss && t.hasSub &&
+		jtiIsUUID &&
+		sec.exp-sec.nbf <= hMaxLifetimeSec &&
+		sec.exp-sec.iat <= hMaxLifetimeSec &&
+		sec.iat <= sec.nbf &&
+		t.sub != ""
+}
+
+// H04c: bestPracticesCheck on an arbitrary jwt.Token value object. Run with -ints int.
+func H04c() {
+	t, sec := hSymToken()
+	vTag("jtiIsUUID")
+	hUUIDOK = vBool()
+	err := bestPracticesCheck(t)
+	if err == nil {
+		vCover("accepted")
+		vAssert(t.hasJti && t.hasIat && t.hasExp && t.hasNbf && t.hasAud && t.hasIss && t.hasSub, "H04c.mandatory_claims: accepted a token lacking one of jti/iat/exp/nbf/aud/iss/sub")
+		vAssert(len(hUUIDArgs) >= 1 && hUUIDArgs[0] == t.jti && hUUIDOK, "H04c.jti_uuid: accepted a token whose jti was not checked to be a UUID")
+		vAssert(sec.exp-sec.nbf <= hMaxLifetimeSec, "H04c.exp_minus_nbf: accepted a token expiring more than 24.5h after nbf")
+		vAssert(sec.exp-sec.iat <= hMaxLifetimeSec, "H04c.exp_minus_iat: accepted a token expiring more than 24.5h after iat")
+		vAssert(sec.iat <= sec.nbf, "H04c.iat_le_nbf: accepted a token issued after its nbf")
+		vAssert(t.sub != "", "H04c.sub_nonempty: accepted a token with empty sub")
+		if sec.exp-sec.nbf == hMaxLifetimeSec {
+			vCover("accepted-at-limit")
+		}
+	} else {
+		vCover("rejected")
+		// converse: a token that follows every rule is not refused
+		vAssert(!hBestPracticeRef(t, sec, hUUIDOK), "H04c.conforming_accepted: rejected a token that satisfies every documented rule")
+		if t.hasJti && t.hasIat && t.hasExp && t.hasNbf && t.hasAud && t.hasIss && t.hasSub && hUUIDOK {
+			if sec.exp-sec.nbf > hMaxLifetimeSec {
+				vCover("rejected-lifetime-nbf")
+			} else if sec.exp-sec.iat > hMaxLifetimeSec {
+				vCover("rejected-lifetime-iat")
+			} else if sec.iat > sec.nbf {
+				vCover("rejected-iat-after-nbf")
+			} else {
+				vCover("rejected-empty-sub")
+			}
+		}
+	}
+}
+
+func H04c_twin() {
+	t, sec := hSymToken()
+	hUUIDOK = true
+	if bestPracticesCheck(t) == nil && sec.exp-sec.iat == hMaxLifetimeSec && sec.nbf == sec.iat+1 {
+		vAssert(false, "H04c_twin.reach: reachable")
 	}
 }
